@@ -348,6 +348,12 @@ func (it *Interp) global(g *ssa.Global) *Obj {
 	if g.Pkg != nil && !strings.HasPrefix(g.Pkg.Pkg.Path(), "github.com/hashicorp/go-plugin") {
 		if types.Identical(et, types.Universe.Lookup("error").Type()) {
 			o.v = it.mkError(conc(g.String())) // opaque sentinel with stable identity
+		} else if _, isIface := et.Underlying().(*types.Interface); isIface {
+			// e.g. io.Discard: an opaque non-nil singleton with stable identity
+			nt := types.NewNamed(types.NewTypeName(token.NoPos, g.Pkg.Pkg, "opaque_"+g.Name(), nil), types.NewStruct(nil, nil), nil)
+			o.v = IfaceV{t: types.NewPointer(nt), v: Ptr{o: it.newObj(nt, &StructV{})}}
+		} else if pt, isPtr := et.Underlying().(*types.Pointer); isPtr && g.Pkg.Pkg.Path() == "os" && (g.Name() == "Stdin" || g.Name() == "Stdout" || g.Name() == "Stderr") {
+			o.v = Ptr{o: it.newObj(pt.Elem(), it.zero(pt.Elem()))}
 		}
 	}
 	return o
@@ -1262,6 +1268,31 @@ func (it *Interp) slice(fr *frame, x *ssa.Slice) Value {
 		}
 	}
 	switch b := base.(type) {
+	case *StrV: // s[lo:hi] of a string: exact when the bounds fall inside a leading literal, or the string is concrete
+		if cs, ok := b.isConc(); ok {
+			if x.High == nil {
+				hi = int64(len(cs))
+			}
+			if hi < 0 {
+				it.unsup("string slice with symbolic bound")
+			}
+			if lo < 0 || hi > int64(len(cs)) || lo > hi {
+				panic(&goPanic{msg: "slice bounds out of range"})
+			}
+			return conc(cs[lo:hi])
+		}
+		n := b.norm()
+		if len(n.A) > 0 && n.A[0].Sym == "" && n.A[0].Line == nil {
+			l0 := int64(len(n.A[0].Lit))
+			if x.High != nil && hi >= 0 && hi <= l0 && lo <= hi {
+				return conc(n.A[0].Lit[lo:hi])
+			}
+			if x.High == nil && lo <= l0 {
+				out := &StrV{A: append([]Atom{{Lit: n.A[0].Lit[lo:]}}, n.A[1:]...)}
+				return out.norm()
+			}
+		}
+		it.unsup("slice of a symbolic string")
 	case Ptr: // *array -> slice
 		if _, isBuf := it.loadRaw(b).(*ByteBuf); isBuf {
 			if x.High == nil {
@@ -1418,9 +1449,7 @@ func (it *Interp) mkRange(x Value) Value {
 	case *MapV:
 		itv := &IterV{m: m}
 		if m != nil {
-			for i := range m.keys {
-				itv.remain = append(itv.remain, i)
-			}
+			itv.keys = append(itv.keys, m.keys...) // the entries present when the loop starts
 		}
 		return itv
 	}
@@ -1428,18 +1457,64 @@ func (it *Interp) mkRange(x Value) Value {
 	return nil
 }
 
+// identity of a stored key value (the map keeps the very Value it was given)
+func keyIdent(v Value) string {
+	switch x := v.(type) {
+	case int64:
+		return fmt.Sprintf("i%d", x)
+	case bool:
+		return fmt.Sprintf("b%v", x)
+	case *StrV:
+		return fmt.Sprintf("s%p", x)
+	case *Sym:
+		return fmt.Sprintf("y%p", x)
+	case Ptr:
+		if x.o == nil {
+			return "pnil"
+		}
+		return fmt.Sprintf("p%d%v", x.o.id, x.path)
+	case IfaceV:
+		return fmt.Sprintf("f%v:%s", x.t, keyIdent(x.v))
+	case *FuncV:
+		return fmt.Sprintf("fn%p", x)
+	case *ChanV:
+		return fmt.Sprintf("c%p", x)
+	}
+	return fmt.Sprintf("?%T%v", v, v)
+}
+
+// next: Go permits deleting entries during a range; a deleted entry that was not reached yet is not produced.
 func (it *Interp) next(iv *IterV, x *ssa.Next) Value {
 	tt := x.Type().(*types.Tuple)
-	if len(iv.remain) == 0 {
+	var live []int // positions in iv.keys whose entry still exists
+	var where []int
+	for i, k := range iv.keys {
+		id := keyIdent(k)
+		for j, mk := range iv.m.keys {
+			if keyIdent(mk) == id {
+				live = append(live, i)
+				where = append(where, j)
+				break
+			}
+		}
+	}
+	if len(live) == 0 {
+		iv.keys = nil
 		return TupleV{false, it.zeroOrNil(tt.At(1).Type()), it.zeroOrNil(tt.At(2).Type())}
 	}
 	k := 0
-	if !it.cfg.NoMapPerm && len(iv.remain) > 1 {
-		k = it.choose(len(iv.remain), "maporder")
+	if !it.cfg.NoMapPerm && len(live) > 1 {
+		k = it.choose(len(live), "maporder")
 	}
-	idx := iv.remain[k]
-	iv.remain = append(iv.remain[:k:k], iv.remain[k+1:]...)
-	return TupleV{true, iv.m.keys[idx], copyVal(iv.m.vals[idx])}
+	key, idx := iv.keys[live[k]], where[k]
+	var rest []Value
+	for n, i := range live {
+		if n != k {
+			rest = append(rest, iv.keys[i])
+		}
+	}
+	iv.keys = rest
+	return TupleV{true, key, copyVal(iv.m.vals[idx])}
 }
 
 func (it *Interp) zeroOrNil(t types.Type) Value {
